@@ -59,6 +59,32 @@ class Obligation:
         self.must_be_sat = kind == "cover"
 
 
+_HQ = {}
+
+
+def has_quantifier(e) -> bool:
+    """Quantified facts are left out of feasibility checks (pruning only; keeps them fast and decidable)."""
+    k = e.get_id()
+    r = _HQ.get(k)
+    if r is not None:
+        return r
+    seen = set()
+    work = [e]
+    r = False
+    while work:
+        x = work.pop()
+        i = x.get_id()
+        if i in seen:
+            continue
+        seen.add(i)
+        if z3.is_quantifier(x):
+            r = True
+            break
+        work.extend(x.children())
+    _HQ[k] = r
+    return r
+
+
 class ExecBase:
     FEAS_TIMEOUT_MS = 3000
 
@@ -96,7 +122,8 @@ class ExecBase:
         for a in INTERN.string_axioms():
             s.add(a)
         for c in st.pc:
-            s.add(c)
+            if not has_quantifier(c):
+                s.add(c)
         if extra is not None:
             s.add(extra)
         r = s.check()
@@ -250,11 +277,20 @@ class ExecBase:
                 return z3.And(parts)
             return V.is_T(z)
         if k == "obj":
-            if th.name in self.enum_classes():
+            if self.is_enum(st, th.name):
                 return V.is_E(z)
             r = V.r(z)
             return z3.And(V.is_R(z), r >= 0, r < st.alloc_bound())
         return z3.BoolVal(True)
+
+    def is_enum(self, st: State, name: str) -> bool:
+        cache = self.enum_classes()
+        if name in cache:
+            return cache[name] is not None
+        ci = front.find_class(name, st.func.module if st.func is not None else None)
+        ok = ci is not None and any(b in ("Enum", "IntEnum") for b in ci.bases)
+        cache[name] = ci if ok else None
+        return ok
 
     _enum_cache: Optional[Dict[str, Any]] = None
 
@@ -264,7 +300,7 @@ class ExecBase:
         return ExecBase._enum_cache
 
     def typed(self, st: State, z, th: Optional[TH]) -> Val:
-        if th is not None:
+        if th is not None and not getattr(st, "no_type_facts", False):
             st.assume(z3.simplify(self.type_formula(st, z, th)))
         return Val(z, th=th)
 
